@@ -139,6 +139,17 @@ Definition final_obs_eqb (a b : final_obs) : bool :=
   bytes_eqb (f_rbuf a) (f_rbuf b) && Nat.eqb (f_consumed a) (f_consumed b) &&
   bytes_eqb (f_sbuf a) (f_sbuf b) && bytes_eqb (f_wire a) (f_wire b).
 
+(* ---- decimal notation (str(n).encode('ascii') for n >= 0) ----------------------------------- *)
+(* most significant digit first: n < 10 -> [digit n], else dec(n/10) ++ [digit(n mod 10)] *)
+Definition digit_byte (d : nat) : N := N.of_nat (48 + d).
+Fixpoint dec_fuel (fuel n : nat) (acc : bytes) : bytes :=
+  match fuel with
+  | 0 => acc
+  | S f => let acc' := digit_byte (n mod 10) :: acc in
+           if Nat.ltb n 10 then acc' else dec_fuel f (n / 10) acc'
+  end.
+Definition dec (n : nat) : bytes := dec_fuel (S n) n [].
+
 (* ---- netstring operations ---------------------------------------------------------- *)
 Inductive nsop :=
 | ReadNs (m : option nat)         (* read_ns(maxsize=_UNSET | n) *)
